@@ -15,7 +15,7 @@ RULE = ("seeded random operation sequences (profile c13: ~35 external operations
 TRUSTED = [
     "modelled, not verified: go-diskqueue (a channel's queue is the multiset of messages waiting on it: placement and order are abstracted; only ephemeral queues are bounded), Go channels/select/mutexes (each operation is atomic at quiescence), time (every operation carries the harness's clock reading; timeouts are driven by VerifScan with margins of seconds)",
     "hooks /repo/nsqd/verif_core.go (VerifHeld, VerifScan: build tag verif); /stats over HTTP is the observation",
-    "the coarse model is quiescent-to-quiescent: interleavings inside one operation (the windows K1/K2/K3-K5 of DESIGN.md section 6) are below its grain",
+    "the coarse model is quiescent-to-quiescent: interleavings inside one operation (the windows K3-K5 of DESIGN.md section 6; K1 and K2 were repaired: F23, F24 of section 10.3) are below its grain; the schedule-level models of DESIGN 10.8 / 10.9 cover the lock protocol and the TOUCH / scan race",
 ]
 ASSUMPTIONS = ["published message ids are fresh (C12)", "disk write errors do not occur"]
 TECHNIQUE = "Coq invariant proofs over all operation histories of the core state machine + trace validation of real nsqd runs (model replay and property monitor evaluated by vm_compute)"
